@@ -429,7 +429,7 @@ def expand_item(repo, relfile, selector, body, tmpl_name, tmpl_line, opts):
                 add(k, k + len(chead), cnew, ("repo", relfile, line_of(src, k)), "T2c",
                     "closure `%s` gets typed binders and a contract" % chead)
                 pos0 = k + len(chead)
-        elif d == "keep-pub":
+        elif d in ("keep-pub", "derived-ord"):
             pass
         elif d == "attr":
             # a verifier attribute in front of the item (specification only)
@@ -486,6 +486,33 @@ def expand_item(repo, relfile, selector, body, tmpl_name, tmpl_line, opts):
             ("gen", "T4", 0)))
         out.trusted.append("T4: derived Clone of %s assumed to return an equal value" % tname)
         out.rules.append(("T4", "%s:%d" % (relfile, out.repo_lines[0]), "trusted Clone impl for %s" % tname))
+    if any(b[0] == "derived-ord" for b in body):
+        # T4b: the specification of #[derive(PartialOrd)] is GENERATED from the struct as it stands in the repository:
+        # lexicographic over the fields in declaration order (all fields must be unsigned integers).  Swapping two
+        # fields therefore changes the specification the same way it changes the derived code.
+        if it.kind != "struct" or not re.search(r"derive\s*\([^)]*\bPartialOrd\b", m[lo:it.head] if it.head > lo else src[lo:hi]):
+            raise LostAnchor("%s: derived-ord needs a struct that derives PartialOrd" % selector)
+        bo = m.index("{", it.head)
+        bc = rs.match_close(m, bo)
+        fields = []
+        for part in src[bo + 1:bc].split(","):
+            part = re.sub(r"\bpub\b(\s*\([^)]*\))?", "", part).strip()
+            if not part:
+                continue
+            mf = re.match(r"^([A-Za-z_][A-Za-z0-9_]*)\s*:\s*(usize|u8|u16|u32|u64|u128)$", part)
+            if not mf:
+                raise LostAnchor("%s: derived-ord: field `%s` is not an unsigned integer field" % (selector, part))
+            fields.append(mf.group(1))
+        chain = "Some(core::cmp::Ordering::Equal)"
+        for f_ in reversed(fields):
+            chain = ("if self.%s != other.%s { if self.%s < other.%s { Some(core::cmp::Ordering::Less) } else { Some(core::cmp::Ordering::Greater) } } else { %s }"
+                     % (f_, f_, f_, f_, chain))
+        out.segments.append((
+            "\nimpl vstd::std_specs::cmp::PartialOrdSpecImpl for %s {\n    open spec fn obeys_partial_cmp_spec() -> bool { true }\n"
+            "    open spec fn partial_cmp_spec(&self, other: &%s) -> Option<core::cmp::Ordering> {\n        %s\n    }\n}\n" % (it.name, it.name, chain),
+            ("gen", "T4b", 0)))
+        out.trusted.append("T4b: derived PartialOrd of %s assumed lexicographic over its fields in declaration order (%s)" % (it.name, ", ".join(fields)))
+        out.rules.append(("T4b", "%s:%d" % (relfile, out.repo_lines[0]), "specification of derived PartialOrd generated for %s (%s)" % (it.name, ", ".join(fields))))
     return out
 
 
@@ -664,6 +691,9 @@ def parse_template(path):
                         cur = None
                     elif d2 == "attr":
                         body.append((d2, a2, [], i + 1))
+                        cur = None
+                    elif d2 == "derived-ord":
+                        body.append((d2, None, [], i + 1))
                         cur = None
                     elif d2 == "keep-pub":
                         # the item keeps its `pub` markers (needed when a pub trait's spec impl mentions its fields)
